@@ -355,7 +355,9 @@ func (z *skolemizer) elim(n *sx, pos bool, path string) (*sx, bool) {
 // smtSkolemized: the obligation with every quantifier eliminated as described above. "" when the
 // goal has no quantifier.
 func (o *Obligation) smtSkolemized(level int) string {
-	if !strings.Contains(o.Goal, "(forall ") && !strings.Contains(o.Goal, "(exists ") {
+	if !strings.Contains(o.Goal, "(forall ") && !strings.Contains(o.Goal, "(exists ") && level == 0 {
+		// a quantifier-free goal has no witness of its own; at level 1 the quantified assumptions are
+		// still instantiated at the ground terms of the goal's cone (the current loop index, ...)
 		return ""
 	}
 	g, ok := parseSx(o.Goal)
